@@ -17,8 +17,8 @@ import (
 
 // which properties model code of which package (path relative to the module root, "gozxing" = root package)
 var purityOwners = map[string][]string{
-	"gozxing":             {"C16", "C17"},
-	"common":              {"C15", "C17", "C19"},
+	"gozxing":             {"C14", "C16", "C17", "C20"},
+	"common":              {"C15", "C19"},
 	"common/reedsolomon":  {"C04", "C05"},
 	"common/detector":     {"C06", "C09"},
 	"common/util":         {"C19", "C20"},
@@ -30,7 +30,7 @@ var purityOwners = map[string][]string{
 	"datamatrix/decoder":  {"C02", "C05"},
 	"datamatrix/encoder":  {"C02", "C08", "C13"},
 	"datamatrix/detector": {"C06", "C09"},
-	"oned":                {"C03", "C09", "C10"},
+	"oned":                {"C03", "C09", "C10", "C20"},
 	"oned/rss":            {"C06", "C09"},
 	"aztec":               {"C11"},
 	"aztec/decoder":       {"C06", "C11"},
@@ -91,6 +91,28 @@ func purityPremise(c *Ctx, prop string) {
 		}
 		c.BrokenPremise("stateless:"+w,
 			"instance field "+w+" is written after construction (a non-constructor function assigns it through its receiver or a struct-pointer parameter) and is not in the reviewed list corpus/purity/allowed-instance-writes.txt: the object now carries state from one call to the next, which the model of property "+prop+" (a function of the call's arguments) does not account for")
+	}
+	// package-level state written at run time (outside init): a process-wide cache or memo is state carried between
+	// calls just as well.  Same scan and same reviewed list as C18 (corpus/C18/allowed-shared-writes.txt).
+	allowedG, err := c18Allowed(filepath.Join(c18HarnessDir(), "..", "corpus", "C18", "allowed-shared-writes.txt"))
+	if err == nil {
+		for _, w := range sc.Writes { // "pkg.Func -> pkg.Var"
+			if _, ok := allowedG[w]; ok {
+				continue
+			}
+			k := strings.Index(w, " -> ")
+			if k < 0 {
+				continue
+			}
+			v := w[k+4:]
+			pkg := v[:strings.LastIndex(v, ".")]
+			for _, p := range purityOwners[pkg] {
+				if p == prop {
+					c.BrokenPremise("stateless:"+strings.ReplaceAll(w, " ", ""),
+						"function writes package-level state at run time ("+w+"), not in the reviewed list corpus/C18/allowed-shared-writes.txt: calls now depend on what earlier calls in the process left there, which the model of property "+prop+" (a function of the call's arguments) does not account for")
+				}
+			}
+		}
 	}
 	c.NoteN("purity:instance-fields-written-after-construction(owned packages)", mine)
 	c.NoteN("purity:of-which-reviewed", n)
